@@ -945,6 +945,11 @@ func (ctx *Context) evaluate() {
 				ctx.Error = errors.New("骰子面数不为正整数")
 				return
 			}
+			if !diceSidesSupported(bInt) {
+				// 超出取整算法支持的最大面数时 Roll 返回 0，不是一个合法的骰点
+				ctx.Error = errors.New("骰子面数过大")
+				return
+			}
 			if ok && (diceState.isKeepLH == 1 || diceState.isKeepLH == 3) && diceState.lowNum <= 0 {
 				ctx.Error = errors.New("骰子取低个数不为正整数")
 				return
